@@ -23,10 +23,10 @@ func init() {
 	}
 	checks["C28"] = &checkDef{
 		Level:       levelOther,
-		Explanation: "Real singleClient.Do and clusterClient.Do with stub connections whose outcome per attempt is a decision (ok, nil reply, ordinary error reply, LOADING, MOVED, TRYAGAIN, CLUSTERDOWN, transport error, errConnExpired, context ended during the attempt), a real retryer with a RetryDelay function returning -1, 0 or 1 ms, DisableRetry on/off, the client closed while an attempt is in flight, and commands that are writes, reads, or writes marked retryable. Oracle over the sequence of attempts: a further attempt follows only an errConnExpired, a redirect, or — with retries enabled, a read-only or retryable command, a non-negative delay, a live context and an open client — a transport error or LOADING (for clusters also TRYAGAIN/CLUSTERDOWN); otherwise the reply is returned as it is (nil stays Nil, error replies stay errors).",
+		Explanation: "Batches: singleClient.DoMulti with 2..3 commands that are each a write, a read or a write marked retryable, the connection dropping after the server executed a prefix (a write that is not retryable runs at most once, a batch is re-sent only if every command in it may be), and clusterClient.DoMulti against a node that fails (LOADING or transport error) for r rounds under a RetryDelay policy that allows k retries and then says stop (the batch is sent at most k+1 times). Single commands: real singleClient.Do and clusterClient.Do with stub connections whose outcome per attempt is a decision (ok, nil reply, ordinary error reply, LOADING, MOVED, TRYAGAIN, CLUSTERDOWN, transport error, errConnExpired, context ended during the attempt), a real retryer with a RetryDelay function returning -1, 0 or 1 ms, DisableRetry on/off, the client closed while an attempt is in flight, and commands that are writes, reads, or writes marked retryable. Oracle over the sequence of attempts: a further attempt follows only an errConnExpired, a redirect, or — with retries enabled, a read-only or retryable command, a non-negative delay, a live context and an open client — a transport error or LOADING (for clusters also TRYAGAIN/CLUSTERDOWN); otherwise the reply is returned as it is (nil stays Nil, error replies stay errors).",
 		Assumptions: []string{"stub connections and the transcription of 'executed' per outcome are harness code"},
-		Outside:     []string{"DoMulti/DoCache/DoMultiCache/Receive retry loops, sentinel and standalone clients (same isRetryable predicate), dedicated clients", "the default RetryDelay function (exponential back-off with jitter)"},
-		Bounds:      map[string]any{"quick": "≤ 3 attempts (single), ≤ 4 hops (cluster)", "thorough": "≤ 4 attempts, ≤ 5 hops"},
+		Outside:     []string{"DoCache/DoMultiCache/Receive retry loops, sentinel and standalone clients (same isRetryable predicate), dedicated clients", "the default RetryDelay function (exponential back-off with jitter)"},
+		Bounds:      map[string]any{"quick": "≤ 3 attempts (single commands and batches), ≤ 4 hops (cluster), k ≤ 2 and r ≤ 4 (cluster batches)", "thorough": "≤ 4 attempts, ≤ 5 hops"},
 		specs: func(tier string) []specRef {
 			return []specRef{hsx(rootPkg, "VerifC28_single", P{"max_attempts": q(tier, int64(3), 4)}, 3000000, 3000, "retried", "returned"),
 				hsx(rootPkg, "VerifC28_multi", P{"max_attempts": q(tier, int64(3), 4)}, 3000000, 3000, "retried", "dropped", "returned"),
